@@ -5,7 +5,7 @@ import os
 from dataclasses import dataclass, field
 
 VERIF = os.path.dirname(os.path.dirname(os.path.abspath(__file__)))
-EVIDENCE_DIR = os.path.join(VERIF, "evidence")
+EVIDENCE_DIR = os.environ.get("EFA_EVIDENCE_DIR") or os.path.join(VERIF, "evidence")   # redirected for scratch runs
 KNOWN = os.path.join(VERIF, "known_findings.json")
 
 
